@@ -763,6 +763,31 @@ func (m *Module) genRespond(w *engine.World, r *engine.Rand, active []*request) 
 	}
 	op := m.respondOp(w, rq, pa.Idx, custom, output, result)
 	tp := engine.Tx1(op)
+	if m.cfg.PBurst > 0 && r.Bool(m.cfg.PBurst) {
+		// the other providers of the same batch answer as well, each in its own transaction
+		for _, sib := range active {
+			if sib == rq || sib.Ctx != rq.Ctx || sib.Batch != rq.Batch {
+				continue
+			}
+			sa := w.ActorOf(sib.Provider)
+			if sa == nil {
+				continue
+			}
+			so, sr, sc := okOutput, okResult, false
+			if f := m.responders[sib.Service]; f != nil {
+				o, res, ok := f(w, sib.export())
+				if !ok {
+					continue
+				}
+				so, sr, sc = o, res, true
+			}
+			tp.Also = append(tp.Also, engine.Tx1(m.respondOp(w, sib, sa.Idx, sc, so, sr)))
+		}
+		if len(tp.Also) > 0 {
+			w.Hit("svc.batch_answered_in_a_burst")
+			return tp
+		}
+	}
 	switch {
 	case r.Bool(m.cfg.PEdgeResp):
 		tp.At = rq.ExpH // the last block in which the answer is still in time
